@@ -146,6 +146,15 @@ def limits_gate_control(prog: Program, rep) -> None:
                     ok = any(isinstance(s, ast.Assign) and enum_member(prog, fi, s.value, "pygradflow.status.SolverStatus") == "TimeLimit" for s in par.body)
                     why = "sets status TimeLimit and leaves the loop"
                 ok = ok and leaves and not par.orelse
+                if not ok:
+                    # single-exit style: the branch only logs and assigns TimeLimit to the variable the function returns
+                    from .common import value_sites
+                    sites = {id(s_) for s_, _ in value_sites(fi, ff)}
+                    body_ok = all((isinstance(s, ast.Expr) and isinstance(s.value, ast.Call) and (dotted(s.value.func) or "").startswith("logger.")) or
+                                  (isinstance(s, ast.Assign) and id(s) in sites and enum_member(prog, fi, s.value, "pygradflow.status.SolverStatus") == "TimeLimit")
+                                  for s in par.body)
+                    if body_ok and any(isinstance(s, ast.Assign) for s in par.body):
+                        ok, why = True, "assigns TimeLimit to the returned status"
             elif isinstance(par, ast.Assign) and len(par.targets) == 1 and isinstance(par.targets[0], ast.Name) and n.func.attr == "elapsed":
                 name = par.targets[0].id
                 uses = [m for m in own_nodes(fi.node) if isinstance(m, ast.Name) and m.id == name and isinstance(m.ctx, ast.Load)]
